@@ -150,3 +150,11 @@ reg("C11", "checks.files", dict(quick=1500, thorough=40000), dict(quick=55, thor
                  "one fault per write (a second fault during clean-up is not injected)"],
     technique="fault enumeration at every file-operation index under a syscall-level fault-injection layer (simkit.fs)",
     chunk=8, recheck_every=0)
+
+reg("C18", "checks.tz", dict(quick=1200, thorough=25000), dict(quick=55, thorough=900), "exploration",
+    HISTORY_RULE + "; the epoch of the virtual clock is placed near a DST transition of a sampled zone (mostly "
+    "fall-back), modified times are instants on that clock, and the last run is repeated from the same store snapshot "
+    "under 4-6 variants of (process TZ via tzset, rendering of every store's modified time as naive-local / aware UTC / "
+    "aware fixed offset / aware zone / real file mtime reported by uberjob.stores.get_modified_time, rendering of "
+    "fresh_time); every variant must rebuild exactly the set computed on the instants",
+    assumptions=["zoneinfo database of the sandbox"], chunk=4, recheck_every=25)
